@@ -1,7 +1,7 @@
 ----------------------------- MODULE QueueSeqMC -----------------------------
 (* Every single-threaded sequence of queue calls up to a bounded length (C19). *)
 EXTENDS Queue, Json
-CONSTANTS MaxLen, EmitReplays
+CONSTANTS MaxLen, EmitReplays, EmitEdges
 VARIABLES sh, g, chk, lastkf, hist
 vars == <<sh, g, chk, lastkf, hist>>
 View == <<sh, g, chk, lastkf, Len(hist)>>
@@ -24,6 +24,7 @@ Next == /\ Len(hist) < MaxLen
                 /\ chk' = (v \cap {"C19"}) \cup (IF run.hang THEN {"C19"} ELSE {})
                 /\ lastkf' = v \ {"C19"}
                 /\ hist' = Append(hist, c)
+                /\ (EmitEdges => PrintT(<<"EDGE", ToJson([calls |-> Append(hist, c), final |-> [orders |-> QMapSeq(run.sh.qmap), tickets |-> run.sh.tickets]])>>))
 Spec == Init /\ [][Next]_vars
 Inv_C19 == chk = {}
 Inv_C19raw == lastkf = {}     \* expected to FAIL: stale-ticket witness (D6)
